@@ -65,7 +65,7 @@ CLAIMED = {
         'are adjacent and non-empty, end at the contig length and satisfy end - start <= interval_size (loop invariant, nonlinear ceil facts discharged by z3). '
         'Merge plan: the selection statements of _step_vdses (first bin, one top-up iteration) and _step_gvcfs are verified as fragments - what is taken and what stays split what was there (take ++ rest == old per bin, other bins untouched, between 1 and branch_factor datasets); the intermediate path prefix of a resumed combiner is fresh (AST). ' \
         'Where the merged datasets go (wave 4): the tails of _step_gvcfs / _step_vdses from the statement that may write the final output are verified - the final output is written only when no GVCF and no dataset is pending (the real `finished` property is executed), exactly once, from the dataset(s) of this step; otherwise every imported dataset is filed exactly once at the end of one bin >= 1 with its sample count, the merged dataset is appended to a bin strictly above the bin the merge started from, and pending datasets are kept in order (defaultdict reads modelled, checked on __init__). step() runs exactly one step function, each only where its selection contract applies, and advances the job number of an unfinished plan; run() saves before every step and after the last (AST). ' \
-        'The step parameters: __init__ rejects branch_factor < 2 and gvcf_batch_size < 1, the resume path of new_combiner (maybe_load_from_saved_path, with the real property setter executed if it goes through it) returns a plan with batch size >= 1, branch factor >= 2 and the saved pending inputs unchanged; the closed set of writers of the two parameters is an AST obligation. The public gvcf_batch_size setter is under contract; its clause "batch size stays >= 1" FAILS for more than 150000 import intervals (known finding, replayed). Encoder/Decoder of the plan and termination of run() are listed undecided.',
+        'The step parameters: __init__ rejects branch_factor < 2 and gvcf_batch_size < 1, the resume path of new_combiner (maybe_load_from_saved_path, with the real property setter executed if it goes through it) returns a plan with batch size >= 1, branch factor >= 2 and the saved pending inputs unchanged; the closed set of writers of the two parameters is an AST obligation. The public gvcf_batch_size setter is under contract; its clause "batch size stays >= 1" FAILS for more than 150000 import intervals (known finding, replayed). Encoder/Decoder of the plan and termination of run() are listed undecided. Contig selection: the 25 primary contigs of GRCh37 / GRCh38 including the mitochondrial contig, each once, all partitioned and returned.',
         note=COMMON_NOTE + 'math.ceil(a / b) on ints treated as the exact rational ceiling (valid below 2**53); hl.Interval/hl.Locus are value constructors; '
         'the @typecheck decorator is dropped by extraction. Engine / file-system / logging calls are assumed to leave the combiner plan alone (their results are opaque); VDSMetadata is a free pair constructor (NamedTuple, checked); new_combiner is assumed to be called with branch_factor >= 2 and gvcf_batch_size >= 1 on the resume path too (only __init__ validates them). Plan save/load (JSON encoder/decoder), engine calls (combine_variant_datasets, import_gvcfs) and termination of run() (needs: a non-final dataset step merges at least two datasets) are NOT covered.',
         technique='loop-invariant contract on real source, pyvc -> z3',
@@ -102,7 +102,7 @@ CLAIMED = {
     'C10': dict(
         text='Every procedure that changes free cores or ends/places an attempt (schedule_job, mark_job_creating, mark_job_started, unschedule_job, mark_job_complete via add_attempt, '
         'deactivate_instance, activate_instance, mark_instance_deleted) is executed symbolically path by path: delta free cores == cores x (attempt live before - live after) for every live instance, '
-        'frames for other instances/attempts, deactivate leaves free == cores; the delta_cores_mcpu each one-attempt procedure REPORTS in its single result row equals the net change it made to the free-core row of a live instance (schedule_job on a pool instance: plus the refund of the in-memory pre-deduction). One known finding (pending-instance release asymmetry) is listed in known_findings.json.',
+        'frames for other instances/attempts, deactivate leaves free == cores; the delta_cores_mcpu each one-attempt procedure REPORTS in its single result row equals the net change it made to the free-core row of a live instance (schedule_job on a pool instance: plus the refund of the in-memory pre-deduction). One known finding (pending-instance release asymmetry) is listed in known_findings.json. Instance.deactivate: an instance the call leaves inactive reports all its cores free in memory (rc 0 and rc 1 alike). driver.job.mark_job_complete as a whole: the delta the procedure reports is applied to the active in-memory instance exactly once whatever rc and old state, before any later step that can fail.',
         note=COMMON_NOTE + 'Assumed: each procedure call is atomic (serialisable isolation); MySQL NULL/boolean semantics as encoded in vc/sqlvc.py; integer column widths sufficient; SQL cannot be executed in this sandbox so counter-models are rows (VIOLATION ... no-failing-input-found). ' + 'Delta obligations lift to the invariant by sum localisation (paper lemma L1). Inactive instances never move. Python mirror: the delta reported by each procedure is applied to the in-memory figure once whatever the return code (fragment contracts on driver/job.py, incl. mark_job_complete), Instance.adjust_free_cores_in_memory adds exactly it.',
         technique='procedure contracts (delta obligations) on the real SQL text, sqlvc -> z3',
         engine='sqlvc',
@@ -171,7 +171,7 @@ CLAIMED = {
         '_create_jobs (one fragment, counter record .. job_parents loop): the stored row is Ready only in update 1 without parents, stored n_pending_parents = #parents however computed, one job_parents row per parent; '
         'parent ids: validate.handle_job_backwards_compatibility keeps the legacy parent_ids key absolute and never rewrites in_update_parent_ids (all dict shapes), every job passes through it, _create_jobs combines absolute and shifted in-update ids; '
         'canceller: the three job-selection generators executed on the real AST with their embedded SQL evaluated by sqlvc: every yielded row is a jobs row in the loop\'s state, never always-run, marked cancelled or in a cancelled group, and is the job completed as Cancelled; '
-        'first reads of mark_job_complete / commit_batch_update take locks.',
+        'first reads of mark_job_complete / commit_batch_update take locks. Scheduler selections (pool.py, job_private.py): no query drops an always-run job because of jobs.cancelled.',
         note=COMMON_NOTE + 'Assumed: each procedure/trigger invocation is atomic (serialisable isolation, justified by the lock-discipline obligations); MySQL NULL/boolean semantics as encoded in vc/sqlvc.py; integer column widths sufficient; SQL cannot be executed in this sandbox so counter-models are rows (VIOLATION ... no-failing-input-found). ' + 'Pointwise obligations lift to invariant N by paper lemmas L1/L2. _create_jobs is verified on one fragment of its loop body plus the parent_ids statement (inputs symbolic, rest dropped). The legacy parent_ids key is read as batch job ids (the pre-update job API). Canceller: the queries of one generator iteration are evaluated over one database state (group cancellation, jobs.cancelled = 1, always_run are monotone); LIMIT only drops rows; completeness of the selection (liveness) is not claimed.',
         technique='procedure contracts (pointwise statement semantics, aggregate predicates) on real SQL + function/fragment contracts on real Python with embedded SQL bound row-wise by sqlvc, sqlvc/pyvc -> z3',
         engine='sqlvc+pyvc',
@@ -182,7 +182,7 @@ CLAIMED = {
         'cancel_job_group transfers only rows of committed updates (pointwise aggregate obligation). The obligation that the children statement of mark_job_complete readies only committed children FAILS on the unchanged tree and is listed as known finding F1. '
         'Wave 4: the whole per-job region of _create_jobs is one contract (row state = computed state, n_pending_parents = number of parent rows in every update); commit_batch_update rewrites only jobs of the update being committed; '
         'mark_job_complete completes the batch only at the total of COMMITTED updates (batches.n_jobs or a pointwise-checked aggregate over batch_updates); scheduler visibility: every job selection is confined to running groups/batches, '
-        "only commit_batch_update can set 'running', no Python INSERT creates a running group/batch, _create_job_group under a pyvc contract.",
+        "only commit_batch_update can set 'running', no Python INSERT creates a running group/batch, _create_job_group under a pyvc contract. Canceller: every job-group walk is confined to running groups (top-level conjunct).",
         note=COMMON_NOTE + 'Assumed: each procedure/trigger invocation is atomic (serialisable isolation, justified by the lock-discipline obligations); MySQL NULL/boolean semantics as encoded in vc/sqlvc.py; integer column widths sufficient; SQL cannot be executed in this sandbox so counter-models are rows (VIOLATION ... no-failing-input-found). ' + 'One known finding (known_findings.json). Assumed as well: invariant K of C06 (batches.n_jobs counts committed updates), the id-range invariant of updates, and that updates staging jobs are committed in order (no later update is committed while update 1 is open - not enforced by the code). Staging rows of never-committed updates, listings of job groups of uncommitted updates and nested-group completion (C06) are not covered.',
         technique='procedure/fragment contracts on real SQL and Python, sqlvc/pyvc -> z3, with a recorded known finding',
         engine='sqlvc+pyvc',
@@ -247,7 +247,7 @@ CLAIMED = {
         'local: _open_from seeks to start and wraps the file in TruncatedReadableBinaryIO(length); TruncatedReadableBinaryIO.read keeps 0 <= offset <= limit and returns min(request, window, file); _ReadableStreamFromBlocking._readexactly (loop invariant) returns exactly n contiguous bytes or raises; '
         'Azure: _open_from builds the stream with offset=start,length=length; every download_blob request of AzureReadableStream.read starts at the first byte not yet handed out and ends at the end of the window (failed before the fix: commit 23c8b8681), readexactly returns n bytes or raises; read(n) turns the 416 of a range starting at or after the end of the blob into UnexpectedEOFError (helpers of the stream are inlined from their real bodies). '
         'GCS request path (wave 4): GoogleStorageClient.get_object, BaseSession.get, Session.request (no session-wide params), RateLimitedSession.request and the retry loop of Session._request_with_valid_authn (loop invariant) pass method, url, params and EVERY caller header - the Range header - unchanged to the wire, with or without authentication headers; get_object maps 416 to UnexpectedEOFError. '
-        'TruncatedReadableBinaryIO.seek: the window bookkeeping offset == file position - window start is preserved by SEEK_CUR and by read; the SEEK_SET / SEEK_END clauses and "a successful seek lands inside the window" FAIL on the unchanged code and are a recorded known finding (replayed; coordinate system is a maintainer decision).',
+        'TruncatedReadableBinaryIO.seek: the window bookkeeping offset == file position - window start is preserved by SEEK_CUR and by read; the SEEK_SET / SEEK_END clauses and "a successful seek lands inside the window" FAIL on the unchanged code and are a recorded known finding (replayed; coordinate system is a maintainer decision). GetObjectStream.readexactly: exactly n bytes, UnexpectedEOFError only when the body ends first (StreamReader.read may return short, readexactly may not).',
         note=COMMON_NOTE + 'Assumed: credentials produce authentication headers only (never a caller key), io seek/read contract of the underlying file, 416 for ranges starting at or after the end. Undecided: Azure read(-1) lets that 416 escape unmapped (no clause claimed for unbounded reads). Assumed: RFC 7233 range semantics of the GCS/S3 servers, the Azure SDK download_blob(offset, length) contract, Python file read(k) returning min(k, remaining) bytes, aiohttp StreamReader.readexactly. Byte contents are abstract (positions and lengths are tracked); the Azure buffer logic is under a length-level contract only.',
         technique='contracts on the real methods (with-protocol, loop invariant, string terms), pyvc -> z3',
         design_ref='7/C23',
